@@ -729,6 +729,15 @@ def call(root, op, want_corr=True):
                     _view_monitor(findings, op, parent, name, vref, result)
                 except Exception as e:
                     findings.append((SIG_VIEW, f'{op["op"]} on {type(parent).__name__}.{name}: the raw list is unreadable afterwards ({type(e).__name__})'))
+        # the document as a whole (also after comment calls, which the frame monitor does not judge): still a tree of its
+        # tokens, cached views still the filtered raw lists, positions still those of the text (harness/health.py) - what
+        # the NEXT call through any view / node relies on. Not demanded after an accepted known-finding donor.
+        if not findings and not rec['child_span'] and not rec['bad_donor']:
+            from harness import health
+            hp = health.problems(root)
+            if hp:
+                findings.append(({'wf': SIG_FRAME, 'views': SIG_VIEW, 'positions': SIG_FRAME}[hp[0][0]],
+                                 f'{op["op"]} on {type(parent).__name__}.{name}: afterwards {hp[0][1]}'))
     return rec
 
 
@@ -1546,6 +1555,9 @@ def replay_script(text, script, lf=1000):
 
 def _replay_script(text, script):
     root = gen_docs.parse_ok(text)
+    if root is not None:
+        from harness import health
+        health.prime(root)
     out = []
     if root is None:
         return [('replay', 'the document no longer parses')], []
@@ -1721,6 +1733,8 @@ def _run_slots(ctx: common.Ctx, props, n_docs: int, n_ops: int):
         root = gen_docs.parse_ok(text)
         if root is None:
             continue
+        from harness import health
+        health.prime(root)          # every value / filtered view is cached before the script runs
         target = None
         if mode == 'views':
             tg = view_targets(root)
